@@ -166,6 +166,22 @@ func (r *runner) eng(op Op) (string, string) {
 		err := s.Close()
 		os.Remove(blocker)
 		return rc(err), ""
+	case "getrevfail":
+		// Replica.GetRevisionCounter while the counter block cannot be read (pread: EBADF)
+		rep := s.Replica()
+		if rep == nil {
+			return "err", "not open"
+		}
+		restore, err := breakFile(r.dir, "revision.counter", "", syscall.O_WRONLY)
+		if err != nil {
+			return "err", "harness: " + err.Error()
+		}
+		c := rep.GetRevisionCounter()
+		restore()
+		if c >= 0 && restoreCount > 0 {
+			return "ok", "counter read although the file was not readable"
+		}
+		return "err", ""
 	case "openfail":
 		// Open whose last step fails: volume.meta.tmp cannot be created
 		blocker := filepath.Join(r.dir, "volume.meta.tmp")
@@ -515,6 +531,12 @@ var restoreCount int
 // breakHeadWrites swaps every descriptor of this process that refers to the head image in dir for a
 // read-only descriptor of the same file; the returned function swaps the originals back.
 func breakHeadWrites(dir string) (func(), error) {
+	return breakFile(dir, "volume-head-", ".img", syscall.O_RDONLY)
+}
+
+// breakFile swaps every descriptor of this process on the files of dir whose name has the given prefix and
+// suffix for a descriptor opened with `flags` only (O_RDONLY: writes fail, O_WRONLY: reads fail).
+func breakFile(dir, prefix, suffix string, flags int) (func(), error) {
 	ents, err := os.ReadDir("/proc/self/fd")
 	if err != nil {
 		return nil, err
@@ -534,7 +556,7 @@ func breakHeadWrites(dir string) (func(), error) {
 			continue
 		}
 		link, err := os.Readlink("/proc/self/fd/" + e.Name())
-		if err != nil || filepath.Dir(link) != dir || !strings.HasPrefix(filepath.Base(link), "volume-head-") || !strings.HasSuffix(link, ".img") {
+		if err != nil || filepath.Dir(link) != dir || !strings.HasPrefix(filepath.Base(link), prefix) || !strings.HasSuffix(link, suffix) {
 			continue
 		}
 		hits = append(hits, hit{fd, link})
@@ -544,7 +566,7 @@ func breakHeadWrites(dir string) (func(), error) {
 		if err != nil {
 			return nil, err
 		}
-		ro, err := syscall.Open(h.link, syscall.O_RDONLY, 0)
+		ro, err := syscall.Open(h.link, flags, 0)
 		if err != nil {
 			syscall.Close(saved)
 			return nil, err
